@@ -27,8 +27,9 @@ flows into the call of `render_doc_with_line_length` and nowhere else) and then
 
 Counterexamples are replayed against the natively compiled real code before being reported (engines/fmtdrv: `render`, `fmt`);
 a counterexample that does not reproduce is inconclusive.  Violation keys: `panic/<function>/<message class>`,
-`kernel/<obligation>/<skeleton>`, `reparse/<corpus id>`, `tokens/<corpus id>`, `comments/<corpus id>`, `idempotence/<corpus id>`
-(mutants carry the id of the unit test they were derived from).
+`kernel/<obligation>/<skeleton>`, `reparse/<x>`, `tokens/<x>`, `comments/<x>`, `idempotence/<x>` where <x> is the id of the unit test (module::test_name) for
+its own input and the mutation context for a mutant: `<block-comment|line-comment|blank-lines>@<PREV>-<NEXT>` (kinds of the code
+tokens around the insertion point) or `respace-<n|t>/<unit test id>`.
 """
 import hashlib
 import json
@@ -746,18 +747,36 @@ CLOSERS = ("R_PAREN", "R_BRACKET", "R_BRACE")
 
 
 def mutants(cid, text, toks):
-    """layout mutants of a text, from the real lexer's tokens: a comment (block / line) inserted at every token boundary;
-    every blank token replaced (line break / blank lines / blanks + tab).  -> [(id, bytes)]"""
+    """layout mutants of a text, from the real lexer's tokens.  Single-site: a block comment / a line comment / two blank
+    lines inserted at one token boundary; whole-text: every blank token replaced (line break / blanks + tab).
+    -> [(id, bytes, context)]; the context names the mutation and the kinds of the neighbouring code tokens and is the stable
+    part of the violation keys of mutants (one root cause = one key, whatever unit test the text came from)."""
     out = []
     offs = [0]
     for _, t in toks:
         offs.append(offs[-1] + len(t))
+    code_before, code_after = [], []
+    last = "START"
+    for k, _ in toks:
+        code_before.append(last)
+        if k not in TRIVIA:
+            last = k
+    code_before.append(last)
+    nxt = "END"
+    for k, _ in reversed(toks):
+        if k not in TRIVIA:
+            nxt = k
+        code_after.append(nxt)
+    code_after = list(reversed(code_after)) + ["END"]
     for bi, o in enumerate(offs):
-        out.append(("%s~b%d" % (cid, bi), text[:o] + b"/* c */" + text[o:]))
-        out.append(("%s~l%d" % (cid, bi), text[:o] + b"// c\n" + text[o:]))
+        where = "%s-%s" % (code_before[bi], code_after[bi])
+        out.append(("%s~b%d" % (cid, bi), text[:o] + b"/* c */" + text[o:], "block-comment@" + where))
+        out.append(("%s~l%d" % (cid, bi), text[:o] + b"// c\n" + text[o:], "line-comment@" + where))
+        if 0 < bi < len(offs) - 1 and (toks[bi - 1][0] in ("WHITESPACE", "NEWLINE") or toks[bi][0] in ("WHITESPACE", "NEWLINE")):
+            out.append(("%s~n%d" % (cid, bi), text[:o] + b"\n\n\n" + text[o:], "blank-lines@" + where))
     if any(k in ("WHITESPACE", "NEWLINE") for k, _ in toks):
-        for tag, rep in (("n", b"\n"), ("nn", b"\n\n\n"), ("t", b"  \t ")):
-            out.append(("%s~s%s" % (cid, tag), b"".join(rep if k in ("WHITESPACE", "NEWLINE") else t for k, t in toks)))
+        for tag, rep in (("n", b"\n"), ("t", b"  \t ")):
+            out.append(("%s~s%s" % (cid, tag), b"".join(rep if k in ("WHITESPACE", "NEWLINE") else t for k, t in toks), "respace-%s/%s" % (tag, cid)))
     return out
 
 
@@ -811,7 +830,7 @@ def token_verdict(tin, tout):
 
 def corpus_item(job):
     """worker: one source text through the pipeline"""
-    setup, natpath, cid, text, (soft, deadline) = job
+    setup, natpath, cid, text, (soft, deadline), mctx = job
     if "~" in cid and soft and time.time() > soft:
         return {"id": cid, "bytes": len(text), "status": "left-out-budget", "paths": 0, "outputs": 0, "sub_paths": 0, "queries": 0, "solver_time": 0.0,
                 "steps": 0, "obligations": 0, "discharged": 0, "violations": [], "witness": {}, "fns": set(), "models": set(), "native_runs": 0,
@@ -821,7 +840,8 @@ def corpus_item(job):
     res = {"id": cid, "bytes": len(text), "status": "ok", "paths": 0, "outputs": 0, "sub_paths": 0, "queries": 0, "solver_time": 0.0,
            "steps": 0, "obligations": 0, "discharged": 0, "violations": [], "witness": {}, "fns": set(), "models": set(), "native_runs": 0,
            "doc_nodes": 0, "groups": 0, "sample": None}
-    bid = base_id(cid)
+    # key suffix: the unit test for its own input, the mutation context for a mutant
+    bid = mctx or base_id(cid)
 
     def viol(key, what, width, cmd, **extra):
         v = {"key": key, "layer": "corpus", "id": cid, "what": what, "text": text.decode("utf-8", "replace"), "text_hex": text.hex(), "width": width, "cmd": cmd}
@@ -1030,7 +1050,7 @@ def main2(tier, cfg, t0, setup, natpath):
     corpus, skipped = extract_corpus()
     if not corpus and only in ("", "corpus"):
         raise Inconclusive("no unit-test input found under dora-format/src (assert_source calls)")
-    items, n_mut = [], 0
+    items, n_mut, ctx_of = [], 0, {}
     if only in ("", "corpus"):
         for cid, text in corpus:
             items.append((cid, text))
@@ -1040,8 +1060,10 @@ def main2(tier, cfg, t0, setup, natpath):
             toks, _ = nat.tokens(text)
             ms = mutants(cid, text, toks)
             if cfg["mutant_stride"] > 1:
-                ms = [m for i, m in enumerate(ms) if "~s" in m[0] or (i // 2) % cfg["mutant_stride"] == (len(text) % cfg["mutant_stride"])]
-            items += ms
+                ms = [m for m in ms if "~s" in m[0] or int(re.search(r"~[bln](\d+)$", m[0]).group(1)) % cfg["mutant_stride"] == (len(text) % cfg["mutant_stride"])]
+            for mid, mtext, mc in ms:
+                items.append((mid, mtext))
+                ctx_of[mid] = mc
             n_mut += len(ms)
     nat.close()
     seen_texts, uniq = set(), []
@@ -1066,7 +1088,7 @@ def main2(tier, cfg, t0, setup, natpath):
             if per[k]:
                 rr.append(per[k].pop(0))
     uniq = base + rr
-    cres = common.fork_map(corpus_item, [(setup, natpath, cid, text, (soft, deadline)) for cid, text in uniq], J)
+    cres = common.fork_map(corpus_item, [(setup, natpath, cid, text, (soft, deadline), ctx_of.get(cid)) for cid, text in uniq], J)
     C = {"paths": 0, "outputs": 0, "sub_paths": 0, "queries": 0, "solver_time": 0.0, "steps": 0, "obligations": 0, "discharged": 0, "native_runs": 0}
     cviol, cwit, csamples, status = [], {}, [], {}
     invalid = [r["id"] for r in cres if r["status"] == "not-a-valid-source"]
@@ -1101,7 +1123,7 @@ def main2(tier, cfg, t0, setup, natpath):
         for k in need_c:
             if not cwit.get(k):
                 raise Inconclusive("vacuity witness missing (corpus): " + k)
-    if uniq and base_ok < 0.8 * len(corpus):
+    if uniq and base_ok < 0.8 * len(corpus) and not os.environ.get("VERIF_C17_FILTER"):
         raise Inconclusive("only %d of the %d unit-test inputs went through the pipeline (%s)" % (base_ok, len(corpus), status))
 
     obligations = K["obligations"] + C["obligations"]
@@ -1132,7 +1154,7 @@ def main2(tier, cfg, t0, setup, natpath):
                                 "plus every such tree with <= %d nodes that contains an empty Text; distinct letters per atom" % (cfg["kernel_size"], NEST_INDENT, cfg["kernel_t0"]),
             "kernel_document_count": K["docs"], "kernel_documents_with_group": K["with_group"], "kernel_max_paths_per_document": K["max_paths"],
             "corpus_unit_test_inputs": len(corpus), "corpus_inputs_not_extracted": skipped,
-            "corpus_mutants": "of every unit-test input of <= %d bytes: `/* c */` and `// c\\n` inserted at %s token boundary; every blank/newline token replaced by a line break, by two blank lines, by blanks+tab"
+            "corpus_mutants": "of every unit-test input of <= %d bytes: `/* c */`, `// c\\n`, two blank lines inserted at %s token boundary (blank lines only next to existing blanks); every blank/newline token replaced by a line break, by blanks+tab"
                               % (cfg["mutant_bytes"], "every" if cfg["mutant_stride"] == 1 else "every %d-th" % cfg["mutant_stride"]),
             "corpus_texts_total": len(uniq), "corpus_texts_checked": status.get("ok", 0) + status.get("prefix-panic", 0), "corpus_status": status, "corpus_texts_with_parse_errors_skipped": invalid[:40], "corpus_max_text_bytes": max_bytes, "corpus_max_doc_nodes": max_nodes,
             "corpus_max_groups": max_groups, "corpus_max_paths_per_text": max_paths},
